@@ -33,7 +33,7 @@ EXPLANATION = (
     "Not decided: equality of arbitrary user functions under cache on/off; the history "
     "quantifier beyond 'each operation preserves R4'.")
 RULE_TEXT = "one obligation per operator x literal prefix, per counter clause, per metric store, per cache clause"
-FLOORS = {'C15.R1': 30, 'C15.R2': 2, 'C15.R3': 4, 'C15.R4': 2, 'C15.R5': 3, 'C15.R6': 1, 'C15.R7': 1, 'C15.R8': 2, 'C15.R9': 5, 'C15.R10': 1, 'C15.R11': 1, 'C15.R12': 2}
+FLOORS = {'C15.R1': 30, 'C15.R2': 2, 'C15.R3': 3, 'C15.R4': 2, 'C15.R5': 3, 'C15.R6': 1, 'C15.R7': 1, 'C15.R8': 2, 'C15.R9': 5, 'C15.R10': 1, 'C15.R11': 1, 'C15.R12': 2}
 PINNED_EXPECT = [('C15.R5', 'emd.cycles.get_cycle_vector', 'last boundary'),
                  ('C15.R7', 'emd._cycles_support.map_cycle_to_samples_augmented', 'augmented extent'),
                  ('C15.R8', 'emd._cycles_support.get_augmented_cycle_stat_from_samples', 'possibly-None'),
@@ -254,15 +254,109 @@ def _loop_store_paths(exits, array_hint=None):
     return out
 
 
+def _enumerate_selections(ctx, fi, make_input, expected, nmax):
+    """Evaluate `fi` on every boolean selection pattern of 0..nmax cycles, given as a literal list (the evaluator unrolls
+    loops over literal lists and over closed array terms derived from them), and interpret the closed return term.
+    -> ('ok', n) | ('bad', message) | ('undecided', why)"""
+    import itertools
+    from ..orderval import OrderEval, Undecided as OUndecided
+    n = 0
+    for n_ in range(0, nmax + 1):
+        for selv in itertools.product((False, True), repeat=n_):
+            inp = make_input(selv)
+            want = expected(selv)
+            exits = Evaluator(ctx.P).run(fi, args={fi.params[0]: ('list', tuple(C(x) for x in inp))})
+            ctx.paths += len(exits)
+            live = []
+            for e in exits:
+                oe = OrderEval({})
+                try:
+                    if all(bool(oe.ev(cd)) == tr for cd, tr, ln in e.state.conds):
+                        live.append(e)
+                except IndexError as ie:
+                    return 'bad', 'input %s: %s' % (list(inp), ie)
+                except OUndecided as u:
+                    return 'undecided', 'path condition not interpreted (%s)' % u
+                except Exception as u:
+                    return 'undecided', 'path condition not interpreted (%r)' % (u,)
+            if len(live) != 1:
+                return 'undecided', '%d live paths for input %s' % (len(live), list(inp))
+            e = live[0]
+            if e.kind == 'raise':
+                if e.value[0] == 'fault':
+                    return 'bad', 'input %s: %s (%s)' % (list(inp), e.value[1], e.value[2])
+                return 'undecided', 'input %s reaches a raise' % (list(inp),)
+            try:
+                got = OrderEval({}).ev(e.value)
+            except IndexError as ie:
+                return 'bad', 'input %s: %s' % (list(inp), ie)
+            except OUndecided as u:
+                return 'undecided', 'result not interpreted (%s)' % u
+            except Exception as u:
+                return 'undecided', 'result not interpreted (%r)' % (u,)
+            if not isinstance(got, list):
+                return 'undecided', 'result is not a vector'
+            if [int(x) if isinstance(x, (bool, int)) else x for x in got] != want:
+                return 'bad', 'input %s gives %s, expected %s' % (list(inp), list(got), want)
+            n += 1
+    return 'ok', n
+
+
+def _subset_of(selv):
+    out, k = [], 0
+    for v in selv:
+        out.append(k if v else -1)
+        k += 1 if v else 0
+    return out
+
+
+def _chain_of(selv):
+    want, prev, ch = [], False, -1
+    for v in selv:
+        if v:
+            if not prev:
+                ch += 1
+            want.append(ch)
+        prev = v
+    return want
+
+
 def rule_counters(ctx, rid):
     P = ctx.P
     alg = mk_algebra()
+    nmax = 7 if ctx.tier == 'thorough' else 6
+    c1 = 'subset vector: -1 for unselected cycles, running counter for selected ones'
+    c2 = 'chain vector: index gap 1 keeps the chain, gap > 1 opens the next one'
+    c3 = 'chain vector: gaps are differences of the selected cycle indices, the first element starts chain 0'
+    # ---- both vectors, read on every selection pattern of up to nmax cycles (they depend on their argument only
+    # through the pattern); the syntactic reading below is the fallback for forms the enumeration cannot interpret
+    f1 = P.func('emd.cycles.get_subset_vector')
+    r1 = _enumerate_selections(ctx, f1, lambda selv: list(selv), _subset_of, nmax)
+    f2_ = P.func('emd.cycles.get_chain_vector')
+    r2 = _enumerate_selections(ctx, f2_, _subset_of, _chain_of, nmax)
+    if r1[0] == 'bad':
+        ctx.violation(rid, f1, c1, r1[1] + ' (-1 for unselected cycles, 0,1,2,.. for the selected ones in order)')
+    elif r1[0] == 'ok':
+        ctx.passed(rid, f1, c1, 'interpreted on all %d selection patterns of up to %d cycles' % (r1[1], nmax))
+    if r2[0] == 'bad':
+        ctx.violation(rid, f2_, c2, r2[1] + ' (one entry per selected cycle, chains are maximal runs of adjacent '
+                      'selected cycles, numbered from 0)')
+    elif r2[0] == 'ok':
+        ctx.passed(rid, f2_, c2, 'interpreted on all %d selection patterns of up to %d cycles' % (r2[1], nmax))
+        ctx.passed(rid, f2_, c3, 'implied by the enumeration')
+    if r1[0] == 'undecided':
+        _subset_syntactic(ctx, rid, c1, alg)
+    if r2[0] == 'undecided':
+        _chain_syntactic(ctx, rid, c2, c3, alg)
+
+
+def _subset_syntactic(ctx, rid, c1, alg):
+    P = ctx.P
     # ---- subset vector
     fi = P.func('emd.cycles.get_subset_vector')
     exits = [e for e in Evaluator(P).run(fi) if e.kind == 'return']
     ctx.paths += len(exits)
-    c1 = 'subset vector: -1 for unselected cycles, running counter for selected ones'
-    bad = None
+    bad = unread = None
     n_sel = n_unsel = 0
     sel_term = ('sub', S(fi.params[0]), None)
     counter_names = set()
@@ -282,7 +376,7 @@ def rule_counters(ctx, rid):
             elif cn == ('sub', S(fi.params[0]), ls.var):
                 sel = truth
         if sel is None:
-            bad = 'a loop path is not decided by the selection flag valids[i]'
+            unread = 'a loop path is not decided by the selection flag valids[i]'
             continue
         if sel:
             n_sel += 1
@@ -310,10 +404,15 @@ def rule_counters(ctx, rid):
                     bad = 'counter %s changes on an unselected cycle' % name
     if bad:
         ctx.violation(rid, fi, c1, bad)
-    elif n_sel == 0 or n_unsel == 0:
-        ctx.undecided(rid, fi, c1, 'selected paths: %d, unselected paths: %d' % (n_sel, n_unsel))
+    elif n_sel == 0 or n_unsel == 0 or unread:
+        ctx.undecided(rid, fi, c1, unread or 'selected paths: %d, unselected paths: %d' % (n_sel, n_unsel))
     else:
         ctx.passed(rid, fi, c1, '%d selected / %d unselected loop paths' % (n_sel, n_unsel))
+    _subset_unwritten(ctx, rid)
+
+
+def _chain_syntactic(ctx, rid, c2, c3, alg):
+    P = ctx.P
     # ---- chain vector
     fi = P.func('emd.cycles.get_chain_vector')
     exits = [e for e in Evaluator(P).run(fi) if e.kind == 'return']
@@ -321,8 +420,6 @@ def rule_counters(ctx, rid):
     sv = S(fi.params[0])
     inds = ('sub', ('call', 'numpy.where', (('cmp', '>', sv, C(-1)),), ()), C(0))
     gaps = ('sub', ('ref', 'numpy.r_'), ('tuple', (C(1), ('call', 'numpy.diff', (inds,), ()))))
-    c2 = 'chain vector: index gap 1 keeps the chain, gap > 1 opens the next one'
-    c3 = 'chain vector: gaps are differences of the selected cycle indices, the first element starts chain 0'
 
     init_ok_vectorised = False
 
@@ -475,6 +572,11 @@ def rule_counters(ctx, rid):
         ctx.undecided(rid, fi, c3, 'no gap vector found')
     else:
         ctx.violation(rid, fi, c3, 'gap vector is %s' % [show(g)[:80] for g in gap_terms], expected=show(gaps))
+
+
+def _subset_unwritten(ctx, rid):
+    P = ctx.P
+    alg = mk_algebra()
     # initial fill: it only matters where an element can stay unwritten.  Every iteration of the subset loop writes its
     # element (checked above: selected and unselected paths both store) and every gap value selects a storing path of
     # the chain loop, so the initial value of either vector never reaches the result; a rule on it would fire on edits
@@ -852,6 +954,12 @@ def _strip_recode(t):
         base, idx, v = t[1], t[2], t[3]
         if idx[0] == 'call' and idx[1] == 'numpy.isnan' and idx[2] and _strip_cast(idx[2][0])[0] == _strip_cast(base)[0]:
             return base, v
+    if t[0] == 'call' and t[1] == 'numpy.where' and len(t[2]) == 3 and not t[3]:
+        # np.where(np.isnan(X), v, X)
+        cnd, v, base = t[2]
+        if cnd[0] == 'call' and cnd[1] == 'numpy.isnan' and cnd[2] and _strip_cast(cnd[2][0])[0] == _strip_cast(base)[0] \
+                and is_c(v):
+            return base, v
     return t, None
 
 
@@ -1223,6 +1331,8 @@ def rule_chain_position(ctx, rid):
         ctx.undecided(rid, fi, c, 'no returning path')
         return
     bad = None
+    n_enum = 0
+    n_syn = 0
     for e in exits:
         stored = None
         for eff in e.state.effects:
@@ -1254,6 +1364,13 @@ def rule_chain_position(ctx, rid):
             break
         arr = a.get('vals', NONE)
         loops = [ls for ls in e.state.loops if ls.kind == 'for']
+        sem = _chain_position_enum(ctx, exits, e, arr, cv)
+        if sem is not None:
+            if sem[0] == 'bad':
+                bad = (e, sem[1])
+                break
+            n_enum += sem[1]
+            continue
         if len(loops) != 1:
             ctx.undecided(rid, fi, c, '%d loops' % len(loops))
             return
@@ -1296,10 +1413,59 @@ def rule_chain_position(ctx, rid):
                 break
         if bad:
             break
+        n_syn += 1
     if bad:
         ctx.violation(rid, fi, c, bad[1], node=bad[0].node, path=trace_tail(bad[0].state, 6))
+    elif n_syn == 0 and n_enum == 0:
+        ctx.undecided(rid, fi, c, 'no path whose positions could be read')
     else:
-        ctx.passed(rid, fi, c, '%d path(s)' % len(exits))
+        ctx.passed(rid, fi, c, '%d path(s); %d chain vectors interpreted' % (len(exits), n_enum))
+
+
+def _chain_position_enum(ctx, exits, e, arr, cv):
+    """Vectorised chain positions: the projected vector `arr` of exit e interpreted on every chain vector of up to
+    6 (7) selected cycles (chain labels start at 0 and grow by 0 or 1).  None when the term is outside the
+    interpreted fragment (loop forms are read syntactically by the caller)."""
+    import itertools
+    from ..orderval import OrderEval, Undecided as OUndecided, Vec
+    if any(t[0] == 's' and '@' in t[1] for t in subterms(arr)):
+        return None
+    nmax = 7 if ctx.tier == 'thorough' else 6
+    n_ok = 0
+    for n_ in range(1, nmax + 1):
+        for steps in itertools.product((0, 1), repeat=n_ - 1):
+            chain = [0]
+            for st_ in steps:
+                chain.append(chain[-1] + st_)
+            want, seen = [], {}
+            for ch in chain:
+                want.append(seen.get(ch, 0))
+                seen[ch] = seen.get(ch, 0) + 1
+            oe = OrderEval({cv: Vec(chain)})
+            try:
+                live = True
+                for cd, tr, ln in e.state.conds:
+                    if cd[0] == 'cmp' and cd[1] in ('is', 'isnot') and cd[3] == NONE:
+                        continue
+                    if bool(oe.ev(cd)) != tr:
+                        live = False
+                        break
+                if not live:
+                    continue
+                got = oe.ev(arr)
+            except IndexError as ie:
+                return 'bad', 'chain vector %s: %s' % (chain, ie)
+            except OUndecided:
+                return None
+            except Exception:
+                return None
+            if not isinstance(got, list):
+                return None
+            if [int(x) if isinstance(x, (bool, int)) else x for x in got] != want:
+                return 'bad', 'chain vector %s gives positions %s, expected %s' % (chain, list(got), want)
+            n_ok += 1
+    # n_ok == 0: the path conditions hold for no chain vector (a guard for "no chain at all")
+    return ('ok', n_ok)
 
 
 # ----------------------------------------------------------------------------------------------
